@@ -1,2 +1,28 @@
+#include "run/runner.h"
 #include <cstdio>
-int main(int argc, char **argv) { (void)argc; (void)argv; printf("ksisim skeleton\n"); return 0; }
+#include <cstring>
+#include <cstdlib>
+
+extern "C" __attribute__((used)) const char *__asan_default_options() { return "exitcode=77:detect_leaks=0:abort_on_error=0:allocator_may_return_null=1"; }
+extern "C" __attribute__((used)) const char *__ubsan_default_options() { return "halt_on_error=1:exitcode=77:print_stacktrace=1"; }
+
+static int usage() {
+	fprintf(stderr, "usage: ksisim check <property> quick|thorough | replay <file> | run-one <engine> <property> <seed> [tier] [--trace] | selftest [what]\n");
+	return 2;
+}
+
+int main(int argc, char **argv) {
+	setvbuf(stdout, nullptr, _IOLBF, 0);
+	if (argc < 2) return usage();
+	std::string cmd = argv[1];
+	if (cmd == "check" && argc >= 4) return run::cmd_check(argv[2], argv[3]);
+	if (cmd == "replay" && argc >= 3) return run::cmd_replay(argv[2]);
+	if (cmd == "run-one" && argc >= 5) {
+		bool trace = false; int tier = 0;
+		for (int i = 5; i < argc; i++) { if (!strcmp(argv[i], "--trace")) trace = true; else tier = atoi(argv[i]); }
+		return run::cmd_run_one(argv[2], argv[3], strtoull(argv[4], nullptr, 0), tier, trace);
+	}
+	if (cmd == "find" && argc >= 7) return run::cmd_find(argv[2], argv[3], argv[4], argv[5], strtoull(argv[6], nullptr, 0));
+	if (cmd == "selftest") return run::cmd_selftest(argc >= 3 ? argv[2] : "all");
+	return usage();
+}
